@@ -37,9 +37,11 @@ Admissible(op, dim, el, sch, law) ==
 Configs == { c \in [op : Operators, dim : {2, 3}, el : Elems2 \cup Elems3, sch : Schemes, law : LawsAll] : Admissible(c.op, c.dim, c.el, c.sch, c.law) }
 
 (* free-motion programs *)
-Programs == { [law |-> l, opt |-> o, dt |-> d, mesh |-> m, conserving |-> (o \in {"gonzalez", "quad-adaptive", "quad3"} /\ (o = "quad3" => l = "SVK"))] :
-              l \in {"NH", "SVK", "MR", "HO"}, o \in {"gonzalez", "quad-adaptive", "quad3", "pointwise"}, d \in {1, 2, 4}, m \in {"2D-QUAD4", "2D-TRI6", "3D-HEXA8"} }
+(* save = k : the driver stores an iteration (Save_Iter) every k-th step only; the steps in between are solved all the same *)
+Programs == { [law |-> l, opt |-> o, dt |-> d, mesh |-> m, save |-> k, conserving |-> (o \in {"gonzalez", "quad-adaptive", "quad3"} /\ (o = "quad3" => l = "SVK"))] :
+              l \in {"NH", "SVK", "MR", "HO"}, o \in {"gonzalez", "quad-adaptive", "quad3", "pointwise"}, d \in {1, 2, 4}, m \in {"2D-QUAD4", "2D-TRI6", "3D-HEXA8"}, k \in {1, 3} }
 ProgramOK(p) == /\ (p.opt = "quad3" => p.law \in {"SVK", "NH"})
+                /\ (p.save = 3 => (p.mesh = "2D-QUAD4" /\ p.dt = 2 /\ (Thorough \/ p.law = "NH")))
                 /\ (~Thorough => (p.mesh # "3D-HEXA8" \/ (p.law = "NH" /\ p.dt = 2)) /\ (p.law \in {"NH", "SVK"} \/ (p.opt = "gonzalez" /\ p.dt = 2 /\ p.mesh = "2D-QUAD4")))
 
 Init == cfg \in [kind : {"config"}, c : Configs] \cup [kind : {"program"}, c : {p \in Programs : ProgramOK(p)}]
